@@ -98,7 +98,7 @@ func LoadProgram(patterns ...string) (*Program, error) {
 	if nerr > 0 {
 		return nil, fmt.Errorf("%d load errors in module packages", nerr)
 	}
-	prog, spkgs := ssautil.Packages(pkgs, ssa.BuilderMode(0))
+	prog, spkgs := ssautil.Packages(pkgs, ssa.GlobalDebug)
 	P := &Program{Repo: repo, Pkgs: pkgs, Prog: prog, SSA: map[string]*ssa.Package{}, Funcs: map[string]*ssa.Function{}, ContractFiles: map[string][]string{}}
 	for _, sp := range prog.AllPackages() {
 		P.SSA[sp.Pkg.Path()] = sp
